@@ -7,6 +7,7 @@ package runkit
 import (
 	"context"
 	"fmt"
+	f1log "github.com/form3tech-oss/f1/v2/internal/log"
 	"io"
 	"log/slog"
 	"runtime"
@@ -46,12 +47,25 @@ type Config struct {
 	OnRun    func(*run.Run) // called before Do
 	WrapRate func(api.RateFunction) api.RateFunction
 	Debug    bool // run with a logger on which debug records are enabled (they go nowhere)
+	LogKind  int  // 0: f1's discard logger (info and above enabled); 1: every level enabled; 2: no level enabled
+}
+
+// Logger returns a logger that writes nowhere: kind 0 is f1's own discard logger (info and above
+// enabled), kind 1 has every level enabled, kind 2 has no level enabled at all - not even error,
+// as a handler handed in through F1.WithLogger may.
+func Logger(kind int) *slog.Logger {
+	switch kind % 3 {
+	case 1:
+		return slog.New(slog.NewTextHandler(io.Discard, &slog.HandlerOptions{Level: slog.LevelDebug - 4}))
+	case 2:
+		return slog.New(slog.NewTextHandler(io.Discard, &slog.HandlerOptions{Level: slog.Level(100)}))
+	}
+	return f1log.NewDiscardLogger()
 }
 
 // DebugOutput is an output whose logger has every level enabled and discards what it is given.
 func DebugOutput() *ui.Output {
-	logger := slog.New(slog.NewTextHandler(io.Discard, &slog.HandlerOptions{Level: slog.LevelDebug - 4}))
-	return ui.NewOutput(logger, ui.NewDiscardPrinter(), false, false)
+	return ui.NewOutput(Logger(1), ui.NewDiscardPrinter(), false, false)
 }
 
 type Outcome struct {
@@ -121,6 +135,8 @@ func DoWithTrigger(cfg Config, trig *api.Trigger) Outcome {
 	out := ui.NewDiscardOutput()
 	if cfg.Debug {
 		out = DebugOutput()
+	} else if cfg.LogKind != 0 {
+		out = ui.NewOutput(Logger(cfg.LogKind), ui.NewDiscardPrinter(), false, false)
 	}
 	if cfg.Name == "" {
 		cfg.Name = "verifscenario"
